@@ -171,6 +171,7 @@ def gen_case(seed, tier='quick'):
                 'kind': 'interrupt', 'frac': round(rng.uniform(0.05, 1.1), 3)}
     knobs = {'fail_on': rng.choice([1, 2, 3]) if faulty else None,
              'persistent_evaluators': rng.random() < 0.5,
+             'reused_object': rng.random() < 0.12,
              'decoy': rng.random() < 0.2}
     return {'property': ID, 'seed': seed, 'knobs': knobs, 'world': world,
             'focus': focus, 'ops': ops}
@@ -206,6 +207,22 @@ def _run(case, fs):
         return {'tag': tag, 'detail': detail}
 
     M = worlds.world_model(world, stale=True)
+    if case['knobs'].get('reused_object') and world.get('xlsx') is None:
+        # the original lives in a Model object that held another workbook
+        # (same names and formula texts, other bindings) before
+        try:
+            sib = worlds.world_model(worlds.sibling_world(world))
+            sib.persist_to_json_file('/simfs/c13-sibling.json')
+            M.persist_to_json_file('/simfs/c13.json')
+            M2 = Model()
+            M2.construct_from_json_file('/simfs/c13-sibling.json',
+                                        build_code=True)
+            M2.construct_from_json_file('/simfs/c13.json', build_code=True)
+            M = M2
+            fs.reset_op()
+            bump('probe:original_in_reused_model_object')
+        except Exception:
+            bump('provenance_failed')
     X = None
     # cells the extract is obliged to contain (others read as blank there)
     focus_closure = closure_of_focus(world, focus)
